@@ -1,6 +1,7 @@
 import Pyunicorn.Model.Proto
 import Pyunicorn.Model.Equivariance
 import Pyunicorn.Model.Relabel
+import Pyunicorn.Model.Repr
 /-! Line-protocol driver for C04. -/
 open Pyunicorn Pyunicorn.Proto Pyunicorn.Nsi
 
@@ -83,7 +84,9 @@ def netRelabelled (perm dirS adjS wS : String) : String :=
     showNats (Net.coreness n a dir),
     mvec n fun i => showRat (Net.nsiIndeg n a w i), mvec n fun i => showRat (Net.nsiOutdeg n a w i),
     mvec n fun i => showRat (Net.nsiDegree dir n a w i),
-    mvec n fun i => showRat (Net.nsiLocalClustering n a w i)] "|"
+    mvec n fun i => showRat (Net.nsiLocalClustering n a w i),
+    -- round 4
+    showOptRat (Net.assortativity dir n a)] "|"
 
 /-- `Pyunicorn.Cross` (C11) on the renumbered network with the renumbered node lists -/
 def crossRelabelled (perm dirS adjS wS l1 l2 dS : String) : String :=
@@ -107,7 +110,11 @@ def crossRelabelled (perm dirS adjS wS l1 l2 dS : String) : String :=
     showOptRat (Cross.nsiCrossTransitivity A w P1 P2), showOptRat (Cross.nsiCrossMeanDegree A w P1 P2),
     showOptRat (Cross.nsiCrossEdgeDensity A w P1 P2),
     showOptRat (Cross.nsiCrossGlobalClustering A w P1 P2),
-    showOptRats (Cross.nsiCrossCloseness n D w P1 P2)] "|"
+    showOptRats (Cross.nsiCrossCloseness n D w P1 P2),
+    -- round 4: the `_sparse` twins
+    showRat (Cross.crossTransitivitySparse dir A P1 P2),
+    showRats (Cross.clcSparse dir A P1 P2),
+    showOptRat (Cross.crossGlobalClusteringSparse dir A P1 P2)] "|"
 
 /-- `Pyunicorn.Circuit` (C18) on the renumbered resistances; the first field says whether both
 certified pseudo-inverses exist and the renumbered old one is a generalised inverse of the new
@@ -133,7 +140,12 @@ def resRelabelled (perm adjS resS : String) : String :=
       showRat (Circuit.globalClustering n adj adm),
       mrows n fun i j => showRat (Circuit.effRes R0 i j),
       mvec n fun i => showRat (Circuit.vcfbKernel n 1 1 adm R i),
-      mrows n fun i j => showRat (Circuit.ecfbKernel n 1 1 adm R i j)] "|"
+      mrows n fun i j => showRat (Circuit.ecfbKernel n 1 1 adm R i j),
+      -- round 4: `diameter_effective_resistance()`; the hypotheses of
+      -- `res_currentflow_relabel_pinv` (all four Moore–Penrose equations, exactly, for the
+      -- inverse of each numbering)
+      (match Circuit.maxOf (Circuit.allPairs n R) with | some x => showRat x | none => "nan"),
+      (if Circuit.isPinv n L R && Circuit.isPinv n L0 R0 then "pinv" else "not-pinv")] "|"
   | _, _ => "no-pinv"
 
 def geoT : Geo.Trig Rat := { sin := id, cos := id, arccos := id, sqrt := id, rad := id }
@@ -157,6 +169,21 @@ def geoRelabelled (perm dirS dimS xS adjS dS : String) : String :=
     mvec n fun i => showOptRat (Geo.inALD D A n (n : Rat) false i),
     mvec n fun i => showOptRat (Geo.maxLinkDistNet D A n i)] "|"
 
+/-- round 4 — C05's model of `set_link_attribute` / `link_attribute` on an object whose embedded
+graph lists the links in the order `edges` (`a-b` tokens; as the real igraph object reports them):
+the attribute matrix of the renumbered values read back -/
+def linkAttrRelabelled (perm dirS nS edgesS wS : String) : String :=
+  let idx := permFn (nats perm)
+  let n := nS.toNat!
+  let es : List (Nat × Nat) := (if edgesS == "-" then [] else splitTok edgesS ",").map fun t =>
+    match splitTok t "-" with
+    | [a, b] => (a.toNat!, b.toNat!)
+    | _ => (0, 0)
+  let net : Repr.Net := { Repr.Net.blank (dirS == "1") n with graph := es }
+  match Repr.linkAttr (Repr.setLinkAttr net (mat (ratMatFn (ratMat wS)) idx)) with
+  | some f => mrows n fun i j => showRat (f i j)
+  | none => "keyerror"
+
 def optV (s : String) : List (List Recurrence.V) :=
   (splitTok s ";").map fun r => (splitTok r ",").map fun t => if t == "x" then none else rat? t
 
@@ -170,6 +197,45 @@ def recRelabelled (perm metric epsS mvS embS : String) : String :=
   showBoolMat (Recurrence.zeroStride
     (Recurrence.fixedThreshold m (rows n idx emb) eps (mvS == "1")) (n + 1))
 
+def recMetric (metric : String) : Recurrence.Metric :=
+  if metric == "manhattan" then .manhattan else if metric == "euclidean" then .euclidean
+  else .supremum
+
+def showAdj (R : Option (List (List Bool))) (stride : Nat) : String :=
+  match R with
+  | some R => showBoolMat (Recurrence.zeroStride R stride)
+  | none => "indexerror"
+
+/-- round 4: network adjacency at a fixed (global / local) recurrence rate; `k` is the index the
+source computes (`int(rate * (len - 1))`) -/
+def recRateRelabelled (perm metric kS localS embS : String) : String :=
+  let idx := permFn (nats perm)
+  let emb := optV embS; let n := emb.length
+  let D := Recurrence.distRP (recMetric metric) (rows n idx emb)
+  let k := kS.toNat!
+  showAdj (if localS == "1" then Recurrence.fixedLocalRate D k else Recurrence.fixedRate D k) (n + 1)
+
+/-- round 4: joint recurrence network (lag 0) of two trajectories reordered together -/
+def recJointRelabelled (perm metric exS eyS embxS embyS : String) : String :=
+  let idx := permFn (nats perm)
+  let ex := optV embxS; let ey := optV embyS; let n := ex.length
+  let m := recMetric metric
+  showAdj (Recurrence.hadamard
+    (Recurrence.fixedThreshold m (rows n idx ex) ((rat? exS).getD 0) false)
+    (Recurrence.fixedThreshold m (rows n idx ey) ((rat? eyS).getD 0) false)) (n + 1)
+
+/-- round 4: inter-system recurrence network of two separately reordered systems -/
+def recIsrnRelabelled (permx permy metric exS eyS exyS embxS embyS : String) : String :=
+  let idx := permFn (nats permx); let idy := permFn (nats permy)
+  let ex := optV embxS; let ey := optV embyS; let nx := ex.length; let ny := ey.length
+  let m := recMetric metric
+  let ex' := rows nx idx ex; let ey' := rows ny idy ey
+  showAdj (Recurrence.isrm nx ny
+    (Recurrence.fixedThreshold m ex' ((rat? exS).getD 0) false)
+    (Recurrence.fixedThreshold m ey' ((rat? eyS).getD 0) false)
+    (Recurrence.threshold (Recurrence.distCRP m ex' ey')
+      (some (Recurrence.unitThr m ((rat? exyS).getD 0))))) (nx + ny + 1)
+
 end relabelled
 
 def answer (toks : List String) : String :=
@@ -179,6 +245,11 @@ def answer (toks : List String) : String :=
   | ["res", perm, adj, res] => resRelabelled perm adj res
   | ["geo", perm, dir, dim, x, adj, d] => geoRelabelled perm dir dim x adj d
   | ["rec", perm, metric, eps, mv, emb] => recRelabelled perm metric eps mv emb
+  | ["lattr", perm, dir, n, edges, w] => linkAttrRelabelled perm dir n edges w
+  | ["recrate", perm, metric, k, loc, emb] => recRateRelabelled perm metric k loc emb
+  | ["recjoint", perm, metric, ex, ey, embx, emby] => recJointRelabelled perm metric ex ey embx emby
+  | ["recisrn", px, py, metric, ex, ey, exy, embx, emby] =>
+      recIsrnRelabelled px py metric ex ey exy embx emby
   | ["eval", n, adj, w, la0, g0, g1, dist, sig] => evalAll (mkGr n adj w la0 g0 g1 dist sig)
   | ["relabel", perm, n, adj, w, la0, g0, g1, dist, sig] =>
       let p := nats perm
